@@ -50,7 +50,7 @@ pub const ACTIONS: [&str; 16] = [
     "replace_infix_op_in_use",
     "replace_postfix_op_in_use",
 ];
-pub const POSITIONS: [&str; 11] = [
+pub const POSITIONS: [&str; 13] = [
     "root",
     "nested_operand",
     "conditional_then",
@@ -72,6 +72,10 @@ pub const POSITIONS: [&str; 11] = [
     // `{1 : [hw, hz, y], <handler> : 2}` where the handler writes hw / hz: entries are evaluated pair by
     // pair, so the FIRST value does not see the write made by the SECOND key
     "map_key_after_a_value_that_reads_the_name_it_writes",
+    // `<handler> ? 1 : 2`: the handler IS the condition of a conditional
+    "conditional_condition",
+    // `y = 5 ; <handler> ; r = 1`: the handler is a statement of its own, not the last one
+    "non_final_statement",
 ];
 
 /// kinds that are context functions (any handler kind may lock / evaluate on the evaluating
@@ -245,6 +249,7 @@ fn at_position(p: usize, node: Expr) -> Expr {
         3 => tern(lit_b(false), lit_i(0), node),
         7 => Expr::List(vec![node, rf("hw"), rf("hz"), rf("y")]),
         10 => Expr::Map(vec![(lit_i(1), Expr::List(vec![rf("hw"), rf("hz"), rf("y")])), (node, lit_i(2))]),
+        11 => tern(node, lit_i(1), lit_i(2)),
         8 => call("pk", vec![node, rf("hw"), rf("hz"), rf("y")]),
         // nf(<node>): the callee is registered (4) or replaced (5) while its argument is evaluated
         _ => call("nf", vec![node]),
@@ -275,6 +280,16 @@ pub fn matrix_case(k: usize, a: usize, p: usize) -> Case {
         let old = marker(&mut case, HKind::Func);
         case.pre.push(Op::RegFn { name: "nf".into(), h: old });
     }
+    if let Some(word) = match a {
+        3 => Some("npw"),
+        4 => Some("niw"),
+        5 => Some("nqw"),
+        _ => None,
+    } {
+        // the word the handler is going to register as an operator has been used as a plain name before
+        // (written as a one-operand chain: the pre-flight, which registers everything first, skips chains)
+        case.pre.push(Op::Exec { prog: Prog::Chain(vec![rf(word)], vec![]), ctx: CtxRef::Fresh(CtxSpec::empty()) });
+    }
     let node = invoking_node(&mut case, k, h, "hh");
     // the operator the handler replaces is registered before the evaluation and applied around the handler
     let in_use = match a {
@@ -297,6 +312,8 @@ pub fn matrix_case(k: usize, a: usize, p: usize) -> Case {
     };
     let mut stmts = if let Some(u) = in_use {
         vec![bin("=", rf("y"), lit_i(5)), bin("=", rf("r"), Expr::List(vec![u.clone(), at_position(p, node), u]))]
+    } else if p == 12 {
+        vec![bin("=", rf("y"), lit_i(5)), node, bin("=", rf("r"), lit_i(1))]
     } else if p == 9 {
         vec![bin("=", rf("y"), lit_i(5)), bin("=", rf("t"), lit_i(7)), bin("=", rf("t"), node), bin("=", rf("r"), rf("t"))]
     } else if p == 6 {
@@ -503,7 +520,7 @@ impl Prop for C14 {
             rule: "exhaustive part: every existing cell of handler kind {global function, prefix, infix, postfix, context function by call, context function by \
                    bare name, user-registered SETTER operator, context function as the target of a compound assignment} x re-entrant action {parse_expression, execute on a new context, register_function/prefix/infix/postfix, and for context \
                    functions: lock the evaluating context's handle and read / write it / evaluate on a Context sharing it / dump it} x program position {root, \
-                   nested operand, then-branch, else-branch, and for register_function: as an argument of the very function it registers / replaces} = 584 cases, all run on every invocation; sampled part: seeded chains of 2..4 re-entrant \
+                   nested operand, then-branch, else-branch, and for register_function: as an argument of the very function it registers / replaces} = 840 cases, all run on every invocation; sampled part: seeded chains of 2..4 re-entrant \
                    handlers each evaluating a program that invokes the next, in a third of them with a bystander thread that registers and evaluates concurrently \
                    (seeded schedules). Fresh simulated process per case. evaluations = simulated \
                    executions; distinct_nontrivial = distinct cases in which at least one re-entrant action was actually performed inside a handler",
